@@ -212,6 +212,11 @@ async def run_scenario(sc):
                     else:
                         tally[o[0]] += 1
                 info["polls"] = tally
+        if sc.get("stall"):
+            # the HOST's event loop does not run for a while during the exit (a blocking call in a sibling coroutine, a
+            # suspended process): timers that fell due meanwhile all fire at the same wake-up
+            asyncio.get_running_loop().call_later(sc["stall"][0] + (0.05 if path not in ("normal", "exception") else 0.0),
+                                                  time.sleep, sc["stall"][1])
         if path == "normal":
             info["t0"] = now()
             return
